@@ -61,6 +61,10 @@ type resolver struct {
 
 func (r resolver) ClientIP(fox.Context) (*net.IPAddr, error) {
 	if r.fail {
+		if r.ip != "" {
+			// a failing resolver that also hands back the candidate it rejected: the error decides
+			return &net.IPAddr{IP: net.ParseIP(r.ip)}, errors.New("candidate rejected")
+		}
 		return nil, errors.New("cannot resolve")
 	}
 	return &net.IPAddr{IP: net.ParseIP(r.ip)}, nil
@@ -163,7 +167,7 @@ func newWorld(g int) *world {
 		}
 		must(f.Handle("GET", "/plain", h))
 		must(f.Handle("GET", "/own", h, fox.WithClientIPResolver(resolver{ip: "2.2.2.2"})))
-		must(f.Handle("GET", "/ownfail", h, fox.WithClientIPResolver(resolver{fail: true})))
+		must(f.Handle("GET", "/ownfail", h, fox.WithClientIPResolver(resolver{fail: true, ip: "203.0.113.7"})))
 		must(f.Handle("GET", "/ownnil", h, fox.WithClientIPResolver(nil)))
 		must(f.Handle("GET", "/redir/", h, fox.WithRedirectTrailingSlash(true)))
 		must(f.Handle("GET", "/enc/{x}", h))
